@@ -34,6 +34,15 @@ func registerHarnessExtensions() {
 		},
 	})
 	_ = object.CreateFunction(object.Extension{
+		Name: "verif_rtpanic", MinArgs: 0, MaxArgs: 0, DontCache: true,
+		Help: "harness: raises a Go runtime error (write to a nil map), which is not a string panic",
+		Callback: func(_ any, _ string, _ []object.Object) object.Object {
+			var m map[string]int
+			m["x"] = 1
+			return object.NULL
+		},
+	})
+	_ = object.CreateFunction(object.Extension{
 		Name: "verif_panic", MinArgs: 0, MaxArgs: 0, DontCache: true,
 		Help: "harness: panics (a runtime panic source independent of interpreter defects)",
 		Callback: func(_ any, _ string, _ []object.Object) object.Object {
